@@ -457,8 +457,8 @@ def claim_error_paths_shallow(cx0, res, kf):
     eng.stubs = [
         (re.compile(r"^core::fmt::rt::Argument::<'_>::new_(\w+)::<(.*)>$"), h_fmt_arg),
         (re.compile(r"^(?:core::fmt::)?Arguments::<'_>::(new|from_str)"), h_blob),
-        (re.compile(r"^(alloc|std)::fmt::format"), h_blob), (re.compile(r"^<String as Deref>::deref$"), h_blob),
-        (re.compile(r"^core::hint::must_use::<"), lambda e, st, fr, c, a, m: a[0]),
+        (re.compile(r"^(?:(?:alloc|std)::fmt::)?format$|^(alloc|std)::fmt::format"), h_blob), (re.compile(r"^<(?:std::string::)?String as Deref>::deref$"), h_blob), (re.compile(r"^(core|std)::(ptr::drop_in_place|mem::drop)::<"), lambda e, st, fr, c, a, m: UnitV()),
+        (re.compile(r"^(?:core::hint::)?must_use::<"), lambda e, st, fr, c, a, m: a[0]),
     ] + serde_stubs(cx, eng) + S.COMBINATOR_STUBS + S.CORE_STUBS
 
     def init(e, st, fr):
